@@ -18,6 +18,7 @@
 package main
 
 import (
+	"fmt"
 	"context"
 	"errors"
 	"io"
@@ -92,6 +93,95 @@ func (c *scriptClient) Do(req *http.Request) (*http.Response, error) {
 	default:
 		return nil, errors.New("malformed HTTP response")
 	}
+}
+
+// crowdClient: a health client whose answers for some hosts hang until released (or until the probe's context ends)
+type crowdClient struct {
+	mu      sync.Mutex
+	slow    map[string]bool
+	release chan struct{}
+	hits    map[string]int
+}
+
+func (c *crowdClient) Do(req *http.Request) (*http.Response, error) {
+	c.mu.Lock()
+	c.hits[req.URL.Host]++
+	slow := c.slow[req.URL.Host]
+	rel := c.release
+	c.mu.Unlock()
+	if slow {
+		select {
+		case <-rel:
+		case <-req.Context().Done():
+			return nil, &url.Error{Op: "Get", URL: req.URL.String(), Err: req.Context().Err()}
+		}
+	}
+	return &http.Response{StatusCode: 200, Body: io.NopCloser(strings.NewReader("{}")), Header: http.Header{}, Request: req}, nil
+}
+
+// crowdCase: more endpoints are due in one round than there are check slots, the slot holders are slow, and the round's
+// deadline passes with endpoints still queueing for a slot.  Afterwards the backends answer promptly: every endpoint that
+// is due is probed by the next round (scheduled or forced), nobody is forgotten.
+func crowdCase(n, slowN int, forced bool) map[string]any {
+	cc := &crowdClient{slow: map[string]bool{}, release: make(chan struct{}), hits: map[string]int{}}
+	repo := discovery.NewStaticEndpointRepositoryWithFactory(factory)
+	var cfgs []config.EndpointConfig
+	for i := 0; i < n; i++ {
+		host := fmt.Sprintf("10.9.0.%d:8000", i+1)
+		cfgs = append(cfgs, config.EndpointConfig{Name: fmt.Sprintf("e%d", i), URL: "http://" + host, HealthCheckURL: "/health", ModelURL: "/models", CheckInterval: 60 * time.Second, CheckTimeout: 30 * time.Second})
+		if i < slowN {
+			cc.slow[host] = true
+		}
+	}
+	if err := repo.LoadFromConfig(context.Background(), cfgs); err != nil {
+		return map[string]any{"setup_err": err.Error()}
+	}
+	chk := health.NewHTTPHealthChecker(repo, vlib.QuietLogger(), cc)
+	health.VerifMarkRunning(chk)
+	round := func(d time.Duration) {
+		ctx, cancel := context.WithTimeout(context.Background(), d)
+		defer cancel()
+		if forced {
+			_ = chk.RunHealthCheck(ctx, false)
+		} else {
+			health.VerifTickerRound(chk, ctx)
+		}
+	}
+	// round 1: the slot holders hang, the round's deadline passes
+	round(150 * time.Millisecond)
+	// the backends are fine again; everything is made due
+	cc.mu.Lock()
+	close(cc.release)
+	cc.slow = map[string]bool{}
+	first := map[string]int{}
+	for k, v := range cc.hits {
+		first[k] = v
+	}
+	cc.mu.Unlock()
+	time.Sleep(30 * time.Millisecond)
+	var probed, healthy []bool
+	for r := 0; r < 3; r++ {
+		eps, _ := repo.GetAll(context.Background())
+		for _, e := range eps {
+			cp := *e
+			cp.NextCheckTime = time.Now().Add(-time.Second)
+			_ = repo.UpdateEndpoint(context.Background(), &cp)
+		}
+		round(5 * time.Second)
+	}
+	eps, _ := repo.GetAll(context.Background())
+	byName := map[string]*domain.Endpoint{}
+	for _, e := range eps {
+		byName[e.Name] = e
+	}
+	cc.mu.Lock()
+	for i := 0; i < n; i++ {
+		host := fmt.Sprintf("10.9.0.%d:8000", i+1)
+		probed = append(probed, cc.hits[host] > first[host])
+		healthy = append(healthy, byName[fmt.Sprintf("e%d", i)] != nil && byName[fmt.Sprintf("e%d", i)].Status == domain.StatusHealthy)
+	}
+	cc.mu.Unlock()
+	return map[string]any{"probed_later": probed, "healthy": healthy}
 }
 
 // ---------------------------------------------------------------- logger that counts "recovered" decisions
@@ -674,6 +764,14 @@ func main() {
 	emit(c, slowRes)
 	c.Emit(map[string]any{"kind": "loop", "impl": <-loopRes})
 	c.Count("loop.production-wiring")
+	// more endpoints due than check slots, slow slot holders, the round's deadline passes; then everybody answers
+	for _, cr := range []struct {
+		n, slow int
+		forced  bool
+	}{{8, 5, false}, {12, 5, false}, {6, 6, false}, {14, 10, true}, {25, 12, true}, {4, 2, false}} {
+		c.Emit(map[string]any{"kind": "crowd", "n": cr.n, "slow": cr.slow, "forced": cr.forced, "impl": crowdCase(cr.n, cr.slow, cr.forced)})
+		c.Count("crowd")
+	}
 
 	c.Close(map[string]any{"exhaustive": true, "reruns_for_timing": atomic.LoadInt64(&reruns), "dropped_for_timing": atomic.LoadInt64(&dropped),
 		"exhaustive_note": "all histories of " + map[bool]string{false: "5", true: "7"}[thorough] +
